@@ -801,7 +801,7 @@ def front_rewrite(R):
     R.check("FRONT.rewrite[ASSIGN]", "nsl.passes.RewriteAssignEqualOperations::RewriteAssignEqualVisitor.v_AssignmentExpression", res is n or res is None, detail="plain assignment must stay")
 
 
-@family("FRONT.parse-actions", props=["C01", "C08", "C16", "C13", "C11", "C12"], functions=["nsl.parser::NslParser.p_*", "nsl.op::StrToOp"],
+@family("FRONT.parse-actions", props=["C01", "C08", "C16", "C13", "C11", "C12", "C10", "C03"], functions=["nsl.parser::NslParser.p_*", "nsl.op::StrToOp"],
         assumptions=["the real grammar actions run on a parser created without __init__ and a stand-in production object; the role of each right-hand-side symbol is read from the action's own docstring production"])
 def front_parse_actions(R):
     """Each grammar action builds the node its production names, with the sub-trees in the roles their positions dictate: condition/body/else/
@@ -914,6 +914,18 @@ def front_parse_actions(R):
                     ok = type(res) is a.BinaryExpression and res.GetOperation() == op.Operation[spell2op[sp]] and len(nodes) == 2 and res.GetLeft() is nodes[0] and res.GetRight() is nodes[1]
                     R.check(f"FRONT.parse[{lab}]", P + mname, ok, detail=f"expected BinaryExpression({spell2op[sp]}, left, right) with the operands in source order, got {res}")
     R.check("FRONT.parse[binary_expression.all-operators]", P + "p_binary_expression", seen_ops == set(tokspell.values()), detail=f"operators with a production: {sorted(seen_ops)}")
+    # two arguments built by the same action do not share a modifier set (mutable state shared between nodes would let one declaration
+    # change another -- e.g. mark every parameter of every later function optional)
+    for nm, vals in (("p_argument_1", [None, ty.Integer(), "a"]), ("p_argument_2", [None, ty.Integer()])):
+        try:
+            a1 = act(nm, list(vals))
+            a2 = act(nm, list(vals))
+            m1, m2 = a1.GetModifiers(), a2.GetModifiers()
+            okm = m1 is not m2 and not m1 and not m2 and not a1.IsOptional()
+            detm = f"modifier sets of two parsed arguments: {'one shared object' if m1 is m2 else 'distinct'}, contents {m1!r} / {m2!r}"
+        except Exception as e:
+            okm, detm = False, f"raised {type(e).__name__}: {e}"
+        R.check(f"FRONT.parse[{nm}.own-modifiers]", P + nm, okm, detail=detm)
     r = act("p_var_decl_1", [ty.Integer(), "name"])
     R.check("FRONT.parse[var_decl_1]", P + "p_var_decl_1", isinstance(r, a.VariableDeclaration) and r.GetName() == "name" and isinstance(r.GetType(), ty.Integer) and not r.HasInitializerExpression(), detail="decl")
     r = act("p_var_decl_2", [ty.Float(), "name", "=", e])
